@@ -41,6 +41,62 @@ def run(repo, report, tier):
     report.guard("C16.R3", "rc suffix / info file", plumbing, repo, report)
 
 
+def _call_args(text):
+    """top-level arguments of the outermost call in a rendered call  f(a, g(b, c))  ->  ['a', 'g(b, c)']"""
+    i = text.rfind(")")
+    depth = 0
+    j = i
+    while j >= 0:
+        if text[j] == ")":
+            depth += 1
+        elif text[j] == "(":
+            depth -= 1
+            if depth == 0:
+                break
+        j -= 1
+    inner = text[j + 1:i]
+    out, depth, cur = [], 0, ""
+    for ch in inner:
+        if ch in "([{":
+            depth += 1
+        elif ch in ")]}":
+            depth -= 1
+        if ch == "," and depth == 0:
+            out.append(cur.strip())
+            cur = ""
+        else:
+            cur += ch
+    if cur.strip():
+        out.append(cur.strip())
+    return out
+
+
+def _add_match_tallies(repo):
+    """problems of the add_match methods as keepers of the per-adapter orientation tally: each concrete add_match takes the
+    orientation as its second argument and adds it to self.reverse_complemented as an unconditional statement"""
+    out = []
+    n = 0
+    for cls in repo.subclasses("AdapterStatistics"):
+        fn = cls.methods.get("add_match")
+        if fn is None:
+            continue
+        body = strip_docstring(fn.body)
+        if not body or all(isinstance(s_, ast.Pass) for s_ in body):
+            continue
+        n += 1
+        ps = params(fn)
+        if len(ps) < 3:
+            out.append(f"{cls.name}.add_match takes no orientation")
+            continue
+        top = [s_ for s_ in body if isinstance(s_, ast.AugAssign) and isinstance(s_.op, ast.Add) and chain(s_.target) == "self.reverse_complemented" and src(s_.value) in (ps[2], f"bool({ps[2]})", f"int({ps[2]})")]
+        if len(top) != 1:
+            nested = [s_ for s_ in ast.walk(fn) if isinstance(s_, ast.AugAssign) and chain(s_.target) == "self.reverse_complemented"]
+            out.append(f"{cls.name}.add_match: self.reverse_complemented += {ps[2]} is " + ("conditional (some matches are not counted)" if nested else "missing"))
+    if n < 4:
+        out.append(f"only {n} add_match implementations found")
+    return out
+
+
 def single(repo, report):
     cls = repo.cls("ReverseComplementer")
     c, fn = repo.need_method("ReverseComplementer", "__call__")
@@ -125,6 +181,13 @@ def single(repo, report):
                 bad.append(("add_match", [e[2] for e in adds]))
             if rcs and not all(("True" if o == "rc" else "False") in e[2] or "bool(" in e[2] or e[2] in ("+1", "+0") for e in rcs):
                 bad.append(("per-adapter rc", [e[2] for e in rcs]))
+            if not rcs:
+                # the tally is not kept here: then it is kept by add_match, which must be told the orientation and count it
+                # for every match it is given
+                told = bool(adds) and all(len(_call_args(e[2])) >= 2 for e in adds)
+                inside = _add_match_tallies(repo)
+                if not told or inside:
+                    bad.append(("the per-adapter reverse-complement tally is not updated once per registered match", inside[:2] if told else "add_match is not told the orientation and nothing else counts it"))
             # the per-adapter orientation tally is updated with every registered match (same loop, same statistics object)
             if rcs and ([bool(e[4]) for e in rcs] != [bool(e[4]) for e in adds] or [e[1].rsplit(".", 1)[0] for e in rcs] != [e[1].rsplit(".", 1)[0] for e in adds]):
                 bad.append(("the per-adapter reverse-complement tally is not updated once per registered match", [(e[1], bool(e[4])) for e in rcs], [(e[1], bool(e[4])) for e in adds]))
@@ -244,6 +307,12 @@ def paired(repo, report):
                     bad.append(("with_adapters", cn, [e[:3] for e in wa]))
                 if not adds or not all(f"MATCHES[{cn}]({x})" in a for a in adds):
                     bad.append(("add_match", cn, adds))
+                rcs = [e for e in r.effects if e[0] == "aug" and e[1].endswith(".reverse_complemented") and e[1] != "self.reverse_complemented" and f"self.{cn}." in e[1]]
+                if not rcs:
+                    told = bool(adds) and all(len(_call_args(a)) >= 2 for a in adds)
+                    inside = _add_match_tallies(repo)
+                    if not told or inside:
+                        bad.append(("the per-adapter reverse-complement tally is not updated once per registered match", cn, inside[:2] if told else "add_match is not told the orientation and nothing else counts it"))
             elif has is False and (ext or wa or adds):
                 bad.append(("registered without match", cn))
             elif has is None and (ext or wa):
